@@ -567,6 +567,7 @@ Proof.
     apply inv2_set_out; [exact H2 | apply incl_refl | apply incl_refl |].
     intros r Hr. exists r. split; [exact Hr | apply incl_refl].
   - intros s [H1 H2] _. split; [revert H1; frame1|]. apply inv2_abandon. apply inv2_finalize; [exact H2 | left; auto].
+  - (* the backend refuses a batch *) intros s [H1 H2] _. split; [revert H1; frame1|]. apply inv2_finalize; [exact H2 | left; auto].
   - intros s r [H1 H2] Hph. split; [revert H1; frame1|]. apply inv2_abandon.
     apply inv2_set_out; [exact H2 | apply incl_refl | apply incl_refl | discriminate].
   - intros s j [H1 H2] _ Ht _. split; [revert H1; frame1 | apply inv2_timeout; assumption].
